@@ -209,3 +209,23 @@ Definition dense (n : nat) : graph := map (fun i => seq 0 i) (seq 0 n).
 Definition shared_out : str := ["o"; "u"; "t"]%char.
 Definition every_second (g : graph) : list crec :=
   map (fun i => mkCrec i CFile shared_out) (filter Nat.even (seq 0 (size g))).
+
+(* ================================================================= specification *)
+
+(* every cached entry is the true ancestor set of its key, as a duplicate-free list (Go: a map
+   used as a set) *)
+Definition cache_sound (g : graph) (c : cache) : Prop :=
+  forall k s, cache_get c k = Some s -> NoDup s /\ forall x, In x s <-> reach g x k.
+
+(* detectOutputConflicts runs after FindCycle found nothing *)
+Definition acyclic (g : graph) : Prop := forall n, ~ reach g n n.
+
+(* every record belongs to a node of the graph *)
+Definition owners_ok (g : graph) (recs : list crec) : Prop := forall r, In r recs -> cr_owner r < size g.
+
+(* the answer targetsAreOrdered has to give *)
+Definition ordered_spec (g : graph) (a b : nat) : Prop := reach g b a \/ reach g a b.
+
+(* a compared pair is a conflict iff its owners are unordered and the keys clash *)
+Definition conflicting (g : graph) (p : crec * crec) : Prop :=
+  ~ ordered_spec g (cr_owner (fst p)) (cr_owner (snd p)) /\ clash p = true.
